@@ -155,6 +155,11 @@ def shapes():
         ('prod(flag_int,option_u,arg_color)', prod(flag('lb', 'f', 'flag', 'Int', 1, 0), opt_o('lc', 'Unsigned'), A('la', 'Color'))),
         ('prod(unit_switch,arg)', prod(usw('lb', 'f', 'flag'), A())),
         ('prod(arg,unit)', prod(A(), unit('lh'))),
+        # unit succeeds on NO arguments only: placed where its failure decides (first in a product, left of a sum, under optional)
+        ('prod(unit,arg)', prod(unit('lh'), A())),
+        ('sum(unit,arg)', sum_('lg', unit('lh'), A())),
+        ('prod(optional(unit),arg_s)', prod(optional(unit('lh')), A('le', 'Str'))),
+        ('commands(switch;c1:unit;c2:arg)+arg_s', prod(commands(sw('lb', 'v', 'verbose'), [('c1', 't1', unit('lh')), ('c2', 't2', A())]), A('le', 'Str'))),
         ('optional(arg)', optional(A())),
         ('optional(option)', optional(opt_o())),
         ('optional(unit_switch)', optional(usw('lb', 'f', 'flag'))),
